@@ -340,6 +340,10 @@ func (ex *Exec) runInner(st *State, b *ssa.BasicBlock, idx int) {
 				b, idx = b.Succs[1], 0
 				continue
 			}
+			if fr.unroll != nil && fr.unroll[b.Index] > 0 && isLoopHeader(b) {
+				ex.subsetFail(st, fmt.Sprintf("loop-without-invariant:%s#%d", ex.w.contractBaseFn(fr.fn), loopOrdinal(b)))
+				return
+			}
 			ex.paths++
 			if ex.paths > ex.maxPaths {
 				ex.subsetFail(st, "path-limit")
@@ -503,8 +507,17 @@ func (ex *Exec) loopHeader(st *State, b *ssa.BasicBlock) bool {
 		return true
 	}
 	if invs == nil {
-		ex.subsetFail(st, "loop-without-invariant:"+key)
-		return true
+		// no invariant: the loop is executed as it stands (unrolled) as long as its exit test is decided by literals
+		// — a loop over a static table; any symbolic exit test ends the attempt (see the If case of runInner)
+		if fr.unroll == nil {
+			fr.unroll = map[int]int{}
+		}
+		fr.unroll[b.Index]++
+		if fr.unroll[b.Index] > 66 {
+			ex.subsetFail(st, "loop-without-invariant:"+key)
+			return true
+		}
+		return false
 	}
 	st.preHeap = st.snapshotHeap()
 	for _, inv := range invs {
@@ -1433,6 +1446,19 @@ func (ex *Exec) indexAddr(st *State, in *ssa.IndexAddr) Val {
 		}
 		np := append(append([]int(nil), x.Path...), int(n))
 		return Val{K: KCellPtr, Typ: in.Type(), Cell: x.Cell, Path: np}
+	case KArray:
+		// a static table (or any executor-level array value): the element becomes a read-only local
+		n, ok := isIntLit(i.T)
+		if !ok {
+			panic(subsetErr{"symbolic index into a static table"})
+		}
+		if n < 0 || int(n) >= len(x.Fs) {
+			ex.record(st, ex.safetyName("bounds", in), "safety", "false", "index out of range at "+siteOf(in))
+			panic(subsetErr{"index out of range into a static table"})
+		}
+		c := ex.newCell("tableelem", x.Fs[n].Typ)
+		st.cells[c.ID] = x.Fs[n]
+		return Val{K: KCellPtr, Typ: in.Type(), Cell: c}
 	case KSlice:
 		ex.record(st, ex.safetyName("bounds", in), "safety", and("(<= 0 "+i.T+")", "(< "+i.T+" "+x.Fs[2].T+")"), "index out of range at "+siteOf(in))
 		et := x.Typ.Underlying().(*types.Slice).Elem()
